@@ -435,6 +435,18 @@ example : (runClock (2 : Nat) 3 [.tick, .msg (.init 0), .tick, .msg (.init 1), .
     (runClock (2 : Nat) 3 [.tick, .msg (.init 2), .tick, .tick]).timedOut = false ∧
     (runClock (2 : Nat) 3 [.tick, .msg (.init 2), .tick, .tick]).w.readies = [2] := by decide
 
+/-- **C11 (the time-outs are ordered).** With CoordinatorTimeout < TssTimeout — which the defaults of `NewCoordinator`
+    satisfy (`defaultTimeouts`, checked against the real constructor by op `defaults`) — a silent coordinator is
+    classified as unresponsive (the typed CoordinatorError, hence a retry) at a moment when the attempt's watchdog,
+    whose untyped time-out error would end the session, has not fired yet. -/
+theorem coordinator_timeout_precedes_watchdog (c : α) (t : Timeouts) (hok : TimeoutsOk t) (tr : List (CEv α))
+    (hsil : ∀ e, CEv.msg e ∈ tr → e.src ≠ c) (hlen : ticksOf tr = t.coord) :
+    (runClock c t.coord tr).timedOut = true ∧ ticksOf tr < t.tss := by
+  obtain ⟨h0, h1, h2⟩ := hok
+  exact ⟨(silent_coordinator_times_out c t.coord (by omega) tr hsil (by omega)).1, by omega⟩
+
+theorem defaultTimeouts_ok : TimeoutsOk defaultTimeouts := by decide
+
 /-- **C11-4 (unrecognised failure).** Without any typed error the session ends, and the error `Execute` returns is that
     very error: no retry, no wait. -/
 theorem unrecognised_failure_ends_session (e : Err α) (retryable : Bool) (hk : intended e = some .unknown) :
